@@ -134,10 +134,14 @@ def build(env, per_cell):
     return cw
 
 
+MOCK_AEADS = (0x7777, 0x7778, 0x777A, 0x7779, 0x777B, 0x777C)
+_mock_ix = __import__("itertools").count()
+
+
 def failing_seal_session(cw, g, rnd, kem, kdf, mode):
     """The built-in AEADs only fail beyond 2^36 bytes; the mock AEAD of harness/src/probe.rs (public Aead trait, id 0x7777)
     fails on request.  A seal that fails must be reported the same way by the single-shot form and by setup + seal."""
-    s = cw.session(kem, kdf, (0x7777, 0x7778, 0x777A, 0x7779, 0x777B, 0x777C)[(len(cw.sessions) // 2 + mode) % 6], sid="q%d" % len(cw.sessions))
+    s = cw.session(kem, kdf, MOCK_AEADS[next(_mock_ix) % len(MOCK_AEADS)], sid="q%d" % len(cw.sessions))
     nsk = gen.nsk(kem)
     gen.add_keys(s, g, kem, "kR")
     gen.add_keys(s, g, kem, "kS")
